@@ -26,7 +26,7 @@ checks = {
  "C11": ("L", "every builder call from an arbitrary state vs a list model: returned identifiers, resulting fields, deletion witness, rejection of out-of-range identifiers; serde JSON round trip (labels serialised as opaque tokens) and documented JSON shape; thorough tier adds a Kani harness of delete_nodes with symbolic identifiers"),
  "C13": ("L", "native path: None iff pending unifications; quotiented image isomorphic to the substitution and to the strict path; witness sizes, labels and interface push-through"),
  "C19": ("L", "forget / forget_monogamous vs substitution with the replace-iff-uniform rule up to iso; scripted Var-builder expressions evaluate to the expression written on symbolic inputs; build fails iff a handle outlives the builder"),
- "C09": ("L", "quotient: fibres = classes of the pending pairs, references mapped, labels of fibres, idempotence, Err iff label conflict and then unchanged"),
+ "C09": ("L", "quotient: fibres = classes of the pending pairs, references mapped, labels of fibres, idempotence, Err iff label conflict and then unchanged; deprecated alias quotient_witness; thorough tier adds a Kani harness of quotient on a 3-node state with symbolic identifiers"),
  "C12": ("S", "functor application vs generator-wise substitution (six functor families) up to isomorphism; preservation laws; lax half (lax tier): dyn_functor path on seven lax functor families incl. images with pending unifications"),
  "C14": ("S", "optic image vs substitution with lens-shaped images up to isomorphism; interleaved types; adapted form, its type and monogamy; functoriality; lax entry points map_arrow/map_adapted (lax tier); reverse-derivative clause: adapted optic of every monogamous acyclic polynomial circuit with <=3 operations (wirings enumerated) evaluated by the real eval on symbolic 64-bit (x,dy) = (f(x), J^T dy) from an independent reverse accumulation"),
  "C15": ("S", "layering obligations vs dependency / cycle / longest-chain oracle; grouped form"),
@@ -58,7 +58,7 @@ na = [{"property_id": p["id"], "reason": NA[p["id"]]} for p in props if p["id"] 
 m = {"version": 1,
      "setup_cmd": "./vf setup",
      "hooks": {"guard": "verif-hooks", "enable": "cargo feature `verif-hooks` of open-hypergraphs, switched on only by the Kani harness crate (kani/Cargo.toml path dependency); Engine S and all native replays build /repo with the guard off", "baseline_off_cmd": "cd /repo && cargo test --workspace --no-fail-fast --offline", "source_commits": ["4b2de11"], "add_only": True},
-     "engines": [{"name": "K", "path": "kani/", "serves_properties": ["C07", "C10", "C11"], "kind_free_text": "Kani proof harness crate with a path dependency on /repo (feature verif-hooks on: association-list stand-in for std HashMap)"}, {"name": "S", "path": "symk/", "serves_properties": sorted(checks), "kind_free_text": "symbolic ArrayKind backend + re-execution path explorer + SMT-LIB pipe to z3; runs the real generic library code over bit-vector terms; lax tier runs the real lax code with symbolic labels"}],
+     "engines": [{"name": "K", "path": "kani/", "serves_properties": ["C07", "C09", "C10", "C11"], "kind_free_text": "Kani proof harness crate with a path dependency on /repo (feature verif-hooks on: association-list stand-in for std HashMap)"}, {"name": "S", "path": "symk/", "serves_properties": sorted(checks), "kind_free_text": "symbolic ArrayKind backend + re-execution path explorer + SMT-LIB pipe to z3; runs the real generic library code over bit-vector terms; lax tier runs the real lax code with symbolic labels"}],
      "checks": out_checks,
      "not_applicable": na,
      "notes": "see DESIGN.md; known_findings.json lists the genuine defects found (all repaired with fix: commits in /repo)"}
